@@ -85,7 +85,7 @@ def one(tag, m, rng):
     from rpylib.model.levymodel.levymodel import LevyRepresentation as R
     nu = m.levy_triplet.nu
     rep = m.levy_triplet.representation
-    a = float(m._original_drift)
+    a = float(m.levy_triplet.a)          # read right after construction: the drift of the declared representation
     s = float(m.levy_triplet.sigma)
     fv = nu.jump_of_finite_variation()
     ev = []
